@@ -41,6 +41,8 @@ type Case struct {
 	// Quiet lists URR ids whose removal yields no final report from the data plane
 	// (the no-op driver never returns one; gtp5g may answer without a report)
 	Quiet []uint32 `json:"quiet,omitempty"`
+	// Perm != 0: the child IEs of every Create / Update IE are sent in another order derived from it
+	Perm uint32 `json:"perm,omitempty"`
 }
 
 type inc struct {
@@ -217,7 +219,11 @@ func gen(t *rapid.T) Case {
 			}
 		}
 	}
-	return Case{Evs: evs, Quiet: quietList}
+	c := Case{Evs: evs, Quiet: quietList}
+	if rapid.IntRange(0, 2).Draw(t, "permute") == 0 {
+		c.Perm = rapid.Uint32Range(1, 1<<30).Draw(t, "perm")
+	}
+	return c
 }
 
 func sortU(a []uint32) {
@@ -310,7 +316,7 @@ func run(c Case) (v *vcore.Violation, stt stats) {
 		switch ev.Kind {
 		case "est":
 			cpNext++
-			o := r.Step(stack.Op{Kind: "est", Peer: 0, Node: 0, Sess: -1, CP: cpNext, Rules: ev.Rules})
+			o := r.Step(stack.Op{Kind: "est", Peer: 0, Node: 0, Sess: -1, CP: cpNext, Rules: stack.Permute(ev.Rules, c.Perm)})
 			if o.Dead != nil {
 				return vcore.Violatef(o.Dead.Key, "event %d: UPF fatal exit: %.400s", i, o.Dead.Msg), stt
 			}
@@ -349,7 +355,7 @@ func run(c Case) (v *vcore.Violation, stt stats) {
 					cur[ikey{ev.Sess, ru.ID}] = &inc{carriers: map[string]bool{}}
 				}
 			}
-			o := r.Step(stack.Op{Kind: "mod", Peer: 0, Sess: ref[ev.Sess], Rules: ev.Rules})
+			o := r.Step(stack.Op{Kind: "mod", Peer: 0, Sess: ref[ev.Sess], Rules: stack.Permute(ev.Rules, c.Perm+uint32(i))})
 			if o.Dead != nil {
 				return vcore.Violatef(o.Dead.Key, "event %d: UPF fatal exit: %.400s", i, o.Dead.Msg), stt
 			}
